@@ -12,8 +12,9 @@ values: `find_local_peaks` output, `make_line_subs` output, scipy's `linear_sum_
 Compared: candidate set and line subscripts exactly, line scores |Δ| ≤ 2e-5, instances as lists of
 (node → peak index) exactly, coordinates rel 1e-5, instance scores 1e-4.
 
-Hypotheses of `reassembly_exact` that are analytic facts about Gaussians (H1 peak stage, H2 score
-separation) are MEASURED on every scene from the real tensors and reported in the evidence.
+`reassembly_exact` assumes only: tree skeleton (any listing), C08's solver contract, H1, H2.  H1 (peak
+stage) and H2 (score separation, `SepTable`) are analytic facts about Gaussians: MEASURED on every
+scene from the real tensors and reported in the evidence.
 
 Oracle (independent of the model): one predicted instance per visible-edge-connected group of ≥ 2
 visible keypoints, those keypoints within half a confidence-map cell (in original-image coordinates),
@@ -40,7 +41,8 @@ THEOREMS = [
     "SleapVerif.C03.accepted_eq_true",
     "SleapVerif.C03.forced_assignment_counterexample",
     "SleapVerif.C03.fixed_separated_of_thresholds",
-    "SleapVerif.C03.assign_eq_components",
+    "SleapVerif.C03.solver_contract_implies_stable",
+    "SleapVerif.C03.grouping_reassembly",
     "SleapVerif.C03.reassembly_exact",
     "SleapVerif.C03.keepTop_all",
 ]
@@ -51,11 +53,11 @@ KNIFE = Fraction(1, 10**6)
 
 
 # ------------------------------------------------------------------ generators
-def random_tree(rng, n):
+def random_tree(rng, n, shapes=("uniform", "path", "star", "bushy")):
     """random rooted tree on nodes 0..n-1 (random numbering), edges away from the root, random listing"""
     order = list(range(n))
     rng.shuffle(order)
-    shape = rng.choice(["uniform", "path", "star", "bushy"])
+    shape = rng.choice(list(shapes))
     edges = []
     for i in range(1, n):
         p = {"path": i - 1, "star": 0, "bushy": rng.randrange(max(0, i - 2), i)}.get(shape, rng.randrange(i))
@@ -82,39 +84,57 @@ def segs_dist(a, b, c, d):
     return best
 
 
-def gen_scene(rng, big=False):
-    """A batch of frames in *network-input* pixel coordinates plus the decode parameters."""
-    cs, ps = rng.choice(STRIDES)
-    n_nodes = rng.choice([2, 2, 3, 3, 4, 5, 6])
-    edges = random_tree(rng, n_nodes)
+def gen_scene(rng, big=False, crowded=False):
+    """A batch of frames in *network-input* pixel coordinates plus the decode parameters.
+    `crowded`: 5 compact animals of 4-6 nodes on a 3x2 layout (≥ 17 peaks in a frame unless nodes
+    are missing), input scale ≠ 1, some missing nodes."""
+    if crowded:
+        cs, ps = rng.choice([(2, 4), (2, 2), (1, 2)])
+        n_nodes = rng.choice([4, 5, 6])
+        edges = random_tree(rng, n_nodes, shapes=("star", "bushy"))
+    else:
+        cs, ps = rng.choice(STRIDES)
+        n_nodes = rng.choice([2, 2, 3, 3, 4, 5, 6])
+        edges = random_tree(rng, n_nodes)
     unit = max(cs, ps)
-    cells = rng.randrange(18, 33 if not big else 41)
-    cells_w = rng.randrange(18, 33 if not big else 41)
-    # keep the PAF tensor small enough for the line protocol
-    while (cells * unit // ps) * (cells_w * unit // ps) * 2 * len(edges) > (16000 if not big else 40000):
-        cells = max(12, cells - 2); cells_w = max(12, cells_w - 2)
-    Hin, Win = cells * unit, cells_w * unit
-    sigma_c = rng.choice([1.0, 1.5, 2.0])
+    sigma_c = rng.choice([1.0, 1.5, 2.0]) if not crowded else rng.choice([1.0, 1.5])
     D = 0.7072 * (ps + cs)
     sigma_p = rng.choice([1.4, 2.0]) * D * D
     band = 1.93 * math.sqrt(sigma_p)                      # PAF weight < 1e-3 beyond this distance
     sep = max(band + D + 1.0, 6.0 * sigma_c * cs)
-    max_len = 0.25 * max(Hin // ps, Win // ps, 2 * len(edges)) * ps
     min_edge = max(2.0 * ps, 3.0 * cs, 4.0)
-    max_edge = max(min_edge + 2.0, min(1.3 * max_len, 0.45 * min(Hin, Win)))
-    B = rng.choice([1, 1, 2, 3])
-    p_miss = rng.choice([0.0, 0.0, 0.15, 0.3])
+    if crowded:
+        max_edge = min_edge + 3.0
+        box = 2 * 2.6 * max_edge + sep + 2.0              # room for a depth ≤ 2..3 animal plus the gap
+        Win = int(math.ceil((3 * box + 2 * unit + 8) / unit)) * unit
+        Hin = int(math.ceil((2 * box + 2 * unit + 8) / unit)) * unit
+    else:
+        cells = rng.randrange(18, 33 if not big else 41)
+        cells_w = rng.randrange(18, 33 if not big else 41)
+        # keep the PAF tensor small enough for the line protocol
+        while (cells * unit // ps) * (cells_w * unit // ps) * 2 * len(edges) > (16000 if not big else 40000):
+            cells = max(12, cells - 2); cells_w = max(12, cells_w - 2)
+        Hin, Win = cells * unit, cells_w * unit
+        max_len = 0.25 * max(Hin // ps, Win // ps, 2 * len(edges)) * ps
+        max_edge = max(min_edge + 2.0, min(1.3 * max_len, 0.45 * min(Hin, Win)))
+    B = rng.choice([1, 1, 2, 3]) if not crowded else rng.choice([1, 2])
+    p_miss = rng.choice([0.0, 0.0, 0.15, 0.3]) if not crowded else rng.choice([0.0, 0.1, 0.1])
     border = unit + 2.0
     frames = []
     for _ in range(B):
-        want = rng.choice([1, 2, 3, 4, 5])
+        want = rng.choice([1, 2, 3, 4, 5]) if not crowded else 5
         animals = []
         for _a in range(want):
-            for _try in range(30):
+            for _try in range(30 if not crowded else 60):
                 # grow the animal from its root, node by node along the tree
                 pts = {}
                 root = next(u for u, _ in edges if all(v != u for _, v in edges))
-                pts[root] = (rng.uniform(border, Win - border - unit), rng.uniform(border, Hin - border - unit))
+                if crowded:
+                    bx, by = _a % 3, _a // 3
+                    pts[root] = (border + 4 + (bx + 0.5) * box + rng.uniform(-2, 2),
+                                 border + 4 + (by + 0.5) * box + rng.uniform(-2, 2))
+                else:
+                    pts[root] = (rng.uniform(border, Win - border - unit), rng.uniform(border, Hin - border - unit))
                 todo = [root]
                 ok = True
                 while todo and ok:
@@ -160,7 +180,7 @@ def gen_scene(rng, big=False):
                 animals.append({"pts": snapped, "fl": fl, "vis": vis})
                 break
         frames.append([[(an["pts"][k] if an["vis"][k] else None) for k in range(n_nodes)] for an in animals])
-    scale = rng.choice([1.0, 1.0, 0.5, 0.75, 2.0, 0.625])
+    scale = rng.choice([1.0, 1.0, 0.5, 0.75, 2.0, 0.625]) if not crowded else rng.choice([0.5, 0.75, 2.0, 0.625])
     effs = [rng.choice([1.0, 1.0, 0.5, 0.8, 0.625, 1.25]) for _ in range(B)]
     return {
         "cs": cs, "ps": ps, "n_nodes": n_nodes, "edges": edges, "Hin": Hin, "Win": Win,
@@ -423,37 +443,6 @@ def measure_H(sc, b, peaks_img, ch, edge_inds, edge_peak_inds, scores):
     return h1_ok, worst, ok, h2, owner
 
 
-def root_first(sc, b, chs, owner, conns):
-    """hypothesis `RootFirst` of assign_eq_components on the model's connection list, with the
-    component labelling taken from the labels (animal, visible-edge component)"""
-    comp_of = {}
-    for a, an in enumerate(sc["frames"][b]):
-        parent = {k: k for k, p in enumerate(an) if p is not None}
-
-        def find(x):
-            while parent[x] != x:
-                x = parent[x]
-            return x
-        for (u, v) in sc["edges"]:
-            if an[u] is not None and an[v] is not None:
-                parent[find(u)] = find(v)
-        for k in parent:
-            comp_of[(a, k)] = (a, find(k))
-    per_node = {}
-    for i, c in enumerate(chs):
-        per_node.setdefault(c, []).append(i)
-
-    def comp(pk):
-        return comp_of[owner[per_node[pk[0]][pk[1]]]]
-    seen, started = set(), set()
-    for (s, d) in conns:
-        if comp(s) != comp(d) or d in seen or (comp(s) in started and s not in seen):
-            return False
-        seen.update([s, d])
-        started.add(comp(s))
-    return True
-
-
 # ------------------------------------------------------------------ one scene through both sides
 def scene_line(sc, b, paf_b, peaks_b, answers, ts32):
     e = sc["edges"]
@@ -661,9 +650,9 @@ def compare_phase(chk, c, model, tag, stats, do_case=True):
         peaks_img = [(p[0] * sc["cs"], p[1] * sc["cs"]) for p in peaks_b]
         chs = [p[3] for p in peaks_b]
         h1, h1m, h2, h2d, owner = measure_H(sc, b, peaks_img, chs, ei, epi, ls)
-        if h1 and m["status"] == "ok":
-            stats["RootFirst"] += root_first(sc, b, chs, owner, m["conns"])
-            stats["RootFirst_of"] += 1
+        # H2 (`SepTable.valid`): no NaN / inf cell in the matrices handed to the solver
+        if h2 and not all(bool((C < float("inf")).all()) for C, _ in lsa_b if C.size):
+            h2 = False
         stats["scenes"] += 1
         stats["H1"] += h1
         stats["H2"] += h2
@@ -901,7 +890,7 @@ def keeptop_cases(chk, n):
 
 # ------------------------------------------------------------------ main
 def new_stats():
-    return {"scenes": 0, "H1": 0, "H2": 0, "RootFirst": 0, "RootFirst_of": 0, "orphan_max": None,
+    return {"scenes": 0, "H1": 0, "H2": 0, "orphan_max": None,
             "h1_worst_cells": 0.0, "true_min": None, "false_max": None,
             "dom": None, "exch": None, "score_err": 0.0, "oracle_fail_H": []}
 
@@ -941,7 +930,10 @@ def main(chk: Check):
     while done < n_scenes and len(chk.disagreements) <= 8 and len(chk.failing) <= 8:
         chunk = []
         for i in range(done, min(n_scenes, done + 15)):
-            sc = gen_scene(rng, big=chk.thorough and i % 5 == 0)
+            sc = gen_scene(rng, big=chk.thorough and i % 5 == 0, crowded=(i % 9 == 4))
+            if i % 9 == 4:
+                chk.tag("crowded_scene", "crowded_max_peaks>=17" if max(
+                    sum(p is not None for an in fr for p in an) for fr in sc["frames"]) >= 17 else "crowded_small")
             chunk.append(impl_phase(chk, sc))
             if i % 4 == 0:
                 writer_layout_case(chk, sc)
@@ -995,7 +987,6 @@ def main(chk: Check):
     chk.extra["measured_hypotheses"] = {
         "samples": stats["scenes"], "H1_held": stats["H1"], "H2_held": stats["H2"],
         "H1_worst_offset_in_cms_cells": stats["h1_worst_cells"],
-        "RootFirst_held": f'{stats["RootFirst"]}/{stats["RootFirst_of"]}',
         "H2_min_true_score": stats["true_min"], "H2_max_false_score": stats["false_max"],
         "H2_max_orphan_pair_score": stats["orphan_max"],
         "H2_min_shared_peak_dominance": stats["dom"], "H2_min_exchange_margin": stats["exch"],
@@ -1027,8 +1018,10 @@ if __name__ == "__main__":
             "the correspondence on the explored scenes only",
             "H1 (one peak per visible keypoint within half a cell) and H2 (score separation) of reassembly_exact are analytic "
             "facts about Gaussian/PAF fields: NOT proved, measured per scene on the real tensors (see measured_hypotheses)",
-            "scipy linear_sum_assignment: parameter of the model (its recorded answers); contract (optimal, hence exchange-stable, "
-            "maximum cardinality) validated by brute force on every call",
+            "scipy linear_sum_assignment: parameter `lsa` of the model (its recorded answers); ONE contract, C08's LsaSpec "
+            "(minimum-cost saturating matching; LsaStable is derived from it in Lean), validated by brute force on every call",
+            "C08 (tree_conns, assign_classes_eq_components, grouping_total_partial, min_score_filtered) and C17 (toposort_perm) "
+            "theorems are imported; their own correspondence checks are harness/c08.py and harness/c17.py",
             "float32/float64 arithmetic: line subscripts reproduced bit-exactly by the Float run of the model; scores within 2e-5",
             "stub network = the repo's own generate_multiconfmaps / generate_pafs on the scaled scene; recording wrappers around "
             "find_local_peaks, make_line_subs, linear_sum_assignment (harness side)",
